@@ -1,0 +1,87 @@
+//go:build verif
+
+package itertools
+
+// Contracts for the verification machinery in /verif (comment-only file; no code).
+//
+// For each iterator: V = "holds a member of the family", P0 = "fresh, before the
+// first Next", D = "exhausted". Next is specified as the structural successor in
+// the documented order; "every object exactly once, in order" then follows by
+// induction over the calls (meta-argument A7, not mechanised).
+
+// ---- Combinations (lexicographic k-subsets of 0..n-1)
+//@ pred combV(b *CombinationIterator) = len(b.data) == b.k && (forall t in 0..b.k-1: b.data[t] < b.data[t+1]) && (b.k >= 1 ==> 0 <= b.data[0] && b.data[b.k-1] <= b.n - 1)
+//@ pred combP0(b *CombinationIterator) = len(b.data) == b.k && (forall t in 0..b.k-1: b.data[t] == t) && (b.k >= 1 ==> b.data[b.k-1] == b.k - 2)
+//@ pred combLast(b *CombinationIterator) = forall t in 0..b.k: b.data[t] == b.n - b.k + t
+
+//@ func Combinations
+//@   requires 0 <= k && k <= 16777216 && -16777216 <= n && n <= 16777216
+//@   ensures fresh(result) && fresh(result.data) && result.n == n && result.k == k && combP0(result)
+//@   loop 1
+//@     invariant 0 <= i && i <= k && len(data) == k
+//@     invariant forall t in 0..i: data[t] == t
+//@     decreases k - i
+
+//@ func (*CombinationIterator).Next
+//@   requires -16777216 <= b.n && b.n <= 16777216 && -1 <= b.k && b.k <= 16777216
+//@   requires b.k >= 1 ==> (combV(b) || combP0(b))
+//@   modifies b, b.data
+//@   ensures b.n == old(b.n) && (old(b.k) >= 1 ==> b.k == old(b.k) && sameslice(b.data, old(b.data)))
+//@   ensures old(b.k) == 0 ==> result && b.k == -1
+//@   ensures old(b.k) == -1 ==> !result && b.k == -1
+//@   ensures old(b.k) >= 1 && result ==> combV(b)
+//@   ensures old(b.k) >= 1 && result ==> exists i in 0..b.k: (forall t in 0..i: b.data[t] == old(b.data)[t]) && b.data[i] == old(b.data)[i] + 1 && (forall t in i+1..b.k: b.data[t] == b.data[t-1] + 1) && (forall t in i+1..b.k: old(b.data)[t] >= b.n - b.k + t)
+//@   ensures old(b.k) >= 1 && !result ==> (forall t in 0..b.k: b.data[t] == old(b.data)[t]) && (forall t in 0..b.k: b.data[t] >= b.n - b.k + t)
+//@   loop 1
+//@     invariant ((b.k >= 1 && -1 <= i && i <= b.k - 1 && len(b.data) == b.k) || (b.k == -1 && i == -2)) && b.k == old(b.k) && b.n == old(b.n) && sameslice(b.data, old(b.data))
+//@     invariant forall t in 0..b.k: b.data[t] == old(b.data)[t]
+//@     invariant forall t in i+1..b.k: b.data[t] >= b.n - b.k + t
+//@     decreases i + 1
+//@   loop 2
+//@     invariant i + 1 <= j && j <= b.k && 0 <= i && b.k >= 1 && b.k == old(b.k) && b.n == old(b.n) && sameslice(b.data, old(b.data)) && len(b.data) == b.k
+//@     invariant forall t in 0..i: b.data[t] == old(b.data)[t]
+//@     invariant b.data[i] == old(b.data)[i] + 1 && old(b.data)[i] < b.n + i - b.k
+//@     invariant forall t in i+1..j: b.data[t] == b.data[t-1] + 1
+//@     invariant forall t in i..j: b.data[t] <= b.n - b.k + t
+//@     invariant forall t in i+1..b.k: old(b.data)[t] >= b.n - b.k + t
+//@     decreases b.k - j
+
+// ---- Product (odometer over {0..n[0]-1} x ... x {0..n[m-1]-1}, last coordinate fastest)
+//@ pred prodState(p *ProductIterator) = len(p.state) == len(p.n) && len(p.n) <= 16777216 && (forall j in 0..len(p.n): -16777216 <= p.n[j] && p.n[j] <= 16777216) && (!p.empty ==> (forall j in 0..len(p.n): 1 <= p.n[j] && p.state[j] < p.n[j]) && (forall j in 0..len(p.n)-1: 0 <= p.state[j]) && (len(p.n) >= 1 ==> -1 <= p.state[len(p.n)-1]))
+
+//@ func (*ProductIterator).Next
+//@   requires prodState(p) && ref(p.state) != ref(p.n)
+//@   modifies p, p.state
+//@   ensures prodState(p) && sameslice(p.state, old(p.state)) && sameslice(p.n, old(p.n))
+//@   ensures forall j in 0..len(p.n): p.n[j] == old(p.n)[j]
+//@   ensures old(p.empty) ==> !result
+//@   ensures !old(p.empty) && len(p.n) == 0 ==> result && p.empty
+//@   ensures !old(p.empty) && len(p.n) >= 1 && result ==> !p.empty && (forall j in 0..len(p.n): 0 <= p.state[j])
+//@   ensures !old(p.empty) && len(p.n) >= 1 && result ==> exists j in 0..len(p.n): (forall t in 0..j: p.state[t] == old(p.state)[t]) && p.state[j] == old(p.state)[j] + 1 && (forall t in j+1..len(p.n): p.state[t] == 0 && old(p.state)[t] == p.n[t] - 1)
+//@   ensures !old(p.empty) && len(p.n) >= 1 && !result ==> !p.empty && (forall j in 0..len(p.n): p.state[j] == old(p.state)[j] && p.state[j] == p.n[j] - 1)
+//@   loop 1
+//@     invariant -1 <= j && j <= n - 1 && n == len(p.state) && p.empty == old(p.empty) && sameslice(p.state, old(p.state)) && sameslice(p.n, old(p.n)) && len(p.state) == len(p.n)
+//@     invariant forall t in 0..n: p.state[t] == old(p.state)[t] && p.n[t] == old(p.n)[t]
+//@     invariant forall t in j+1..n: p.state[t] >= p.n[t] - 1
+//@     decreases j + 1
+//@   loop 2
+//@     invariant j + 1 <= k && k <= n && 0 <= j && n == len(p.state) && p.empty == old(p.empty) && sameslice(p.state, old(p.state)) && sameslice(p.n, old(p.n)) && len(p.state) == len(p.n)
+//@     invariant forall t in 0..n: p.n[t] == old(p.n)[t]
+//@     invariant forall t in 0..j: p.state[t] == old(p.state)[t]
+//@     invariant p.state[j] == old(p.state)[j] + 1 && old(p.state)[j] < p.n[j] - 1
+//@     invariant forall t in j+1..k: p.state[t] == 0
+//@     invariant forall t in k..n: p.state[t] == old(p.state)[t]
+//@     invariant forall t in j+1..n: old(p.state)[t] >= p.n[t] - 1
+//@     decreases n - k
+
+//@ func Product
+//@   requires len(n) <= 16777216 && (forall j in 0..len(n): -16777216 <= n[j] && n[j] <= 16777216)
+//@   ensures fresh(result) && fresh(result.state) && fresh(result.n) && prodState(result) && len(result.n) == len(n)
+//@   ensures forall j in 0..len(n): result.n[j] == n[j]
+//@   ensures result.empty <==> (exists j in 0..len(n): n[j] < 1)
+//@   ensures forall j in 0..len(n)-1: result.state[j] == 0
+//@   ensures len(n) >= 1 ==> result.state[len(n)-1] == -1
+//@   loop 1
+//@     invariant -1 <= rangeindex && (rangeindex < len(n) || (len(n) == 0 && rangeindex == -1))
+//@     invariant empty <==> (exists j in 0..rangeindex+1: n[j] < 1)
+//@     decreases len(n) - rangeindex
